@@ -42,7 +42,7 @@ def main():
             if hasattr(mod, "on_build_failure"):
                 mod.on_build_failure(ctx, out)
         if args.replay:
-            return mod.replay(ctx, args.replay)
+            return (mod.replay if hasattr(mod, "replay") else common.generic_replay)(ctx, args.replay)
         if ok_drv:
             mod.run(ctx)
         return ctx.finish(**mod.finish_args(ctx))
